@@ -1,7 +1,7 @@
 (** C20 -- the statements exported to Properties_C20.v, assembled from the general proofs
     (MathProofs*.v), the sweeps (MathSweeps*.v) and the Aggregate development (AggProofs.v). *)
 From Coq Require Import ZArith QArith List Bool Lia.
-From TLXV Require Import C20.Math C20.MathSpec C20.MathProofs C20.MathProofs2 C20.MathProofs3 C20.MathProofs4
+From TLXV Require Import C20.Math C20.MathSpec C20.MathProofs C20.MathProofs2 C20.MathProofs3 C20.MathProofs4 C20.MathProofs5
   C20.MathSweeps C20.MathSweeps_u16 C20.Agg C20.AggProofs.
 Import ListNotations.
 Open Scope Z_scope.
@@ -139,13 +139,19 @@ Proof.
   split; [now apply bswap64_generic_correct | now apply bswap_spec8_bytes].
 Qed.
 
-(** full statement not reached: popcount_generic32 / popcount_generic64 x = popcount_spec x for all 32/64-bit
-    values (tied to the real code by the correspondence run only). Proved: the 8- and 16-bit functions, every value. *)
-Theorem popcount_partial : forall x,
-  (inrange u8 x = true -> popcount_generic8 x = popcount_spec x) /\
-  (inrange u16 x = true -> popcount_generic16 x = popcount_spec x).
+(** popcount: the SWAR fall-backs count the one digits of every 8/16/32/64-bit value; the intrinsic overloads are
+    specified by the same count; popcount_spec is the number of set bits. *)
+Theorem popcount_final :
+  (forall x, inrange u8 x = true -> popcount_generic8 x = popcount_spec x) /\
+  (forall x, inrange u16 x = true -> popcount_generic16 x = popcount_spec x) /\
+  (forall x, 0 <= x < 2 ^ 32 -> popcount_generic32 x = popcount_spec x) /\
+  (forall x, 0 <= x < 2 ^ 64 -> popcount_generic64 x = popcount_spec x) /\
+  (forall t x, popcount_intrinsic t x = popcount_spec (pattern t x)) /\
+  (forall p n, (Pos.size_nat p <= n)%nat -> popcount_spec (Zpos p) = count_bits n (Zpos p)).
 Proof.
-  intros x. split; [apply sweep_popcount8 | apply sweep_popcount16].
+  split; [exact sweep_popcount8 |]. split; [exact sweep_popcount16 |].
+  split; [exact popcount_generic32_correct |]. split; [exact popcount_generic64_correct |].
+  split; [reflexivity |]. intros p n H. cbn [popcount_spec]. now apply ppop_count_bits.
 Qed.
 
 Example integer_hypotheses_satisfiable :
